@@ -63,6 +63,10 @@ func (dm *DMap) mergeFragments(part *partitions.Partition, fp *fragmentPack) err
 	// Acquire fragment's lock. No one should work on it.
 	f.Lock()
 	defer f.Unlock()
+	if !dm.isFragmentRegistered(part, f) {
+		// Removed by the janitor between the lookup and the lock. Start over.
+		return dm.mergeFragments(part, fp)
+	}
 
 	return f.storage.Import(fp.Payload, func(hkey uint64, entry storage.Entry) error {
 		return dm.fragmentMergeFunction(f, hkey, entry)
